@@ -92,7 +92,7 @@ def _check_dropped(text, rule, allowed_macros=None, allow_assign=False):
                 raise Undecided("%s: dropped text invokes macro %s!" % (rule, name))
 
 
-def r1_cfg_drop(text):
+def r1_cfg_drop(text, extra_features=()):
     """R1: delete the statement/block following #[cfg(feature = "metrics"|"tracing"|any(..))]."""
     n = 0
     while True:
@@ -107,7 +107,7 @@ def r1_cfg_drop(text):
         if not mm:
             break
         feat = re.findall(r"feature\s*=\s*\"([^\"]*)\"", mm.group(0))
-        if not set(feat) <= {"metrics", "tracing"} or "not(" in mm.group(0):
+        if not set(feat) <= ({"metrics", "tracing"} | set(extra_features)) or "not(" in mm.group(0):
             raise Undecided("R1: unexpected cfg attribute %s" % mm.group(0))
         s = mm.end()
         while s < len(m) and m[s].isspace():
@@ -316,16 +316,29 @@ def r10_result_map_chain(text, count=None):
     k = 0
     while True:
         m = mask(text)
-        mm = re.search(r"\.\s*map\(\s*\|\s*(\w+)\s*\|\s*([^|]*?)\)\s*\.\s*map_err\(\s*\|\s*(\w+)\s*\|\s*([^|]*?)\)", m)
-        if not mm:
+        found = None
+        for mm in re.finditer(r"\.\s*map\(\s*\|\s*(\w+)\s*\|", m):
+            op1 = m.index("(", mm.start())
+            cp1 = match_close(m, op1)
+            m2 = re.match(r"\s*\.\s*map_err\(\s*\|\s*(\w+)\s*\|", m[cp1 + 1:])
+            if not m2:
+                continue
+            op2 = m.index("(", cp1 + 1)
+            cp2 = match_close(m, op2)
+            b1 = text[mm.end():cp1].strip()
+            b2 = text[cp1 + 1 + m2.end():cp2].strip()
+            if "|" in mask(b1) or "|" in mask(b2):
+                continue
+            found = (mm.start(), cp2, mm.group(1), b1, m2.group(1), b2)
             break
-        s0 = _receiver_start(m, mm.start())
-        recv = text[s0:mm.start()]
-        p1 = "vx_p%d" % k if mm.group(1) == "_" else mm.group(1)
-        p2 = "vx_q%d" % k if mm.group(3) == "_" else mm.group(3)
-        b1 = text[mm.start(2):mm.end(2)].strip()
-        b2 = text[mm.start(4):mm.end(4)].strip()
-        text = text[:s0] + "(match %s { Ok(%s) => Ok(%s), Err(%s) => Err(%s) })" % (recv, p1, b1, p2, b2) + text[mm.end():]
+        if not found:
+            break
+        st, en, p1, b1, p2, b2 = found
+        s0 = _receiver_start(m, st)
+        recv = text[s0:st]
+        p1 = "vx_p%d" % k if p1 == "_" else p1
+        p2 = "vx_q%d" % k if p2 == "_" else p2
+        text = text[:s0] + "(match %s { Ok(%s) => Ok(%s), Err(%s) => Err(%s) })" % (recv, p1, b1, p2, b2) + text[en + 1:]
         k += 1
     if (count is None and k == 0) or (count is not None and count >= 0 and k != count):
         raise Undecided("R10r: %d map/map_err chains, expected %s" % (k, count))
@@ -509,7 +522,7 @@ def apply_rules(text, rules, log, fn):
     for r in rules:
         kind = r[0]
         if kind == "R1":
-            text, k = r1_cfg_drop(text)
+            text, k = r1_cfg_drop(text, *r[1:])
         elif kind == "R2":
             text, k = r2_emit_drop(text)
         elif kind == "R3":
